@@ -16,8 +16,8 @@
      C04_final_indent_zero        a run of the serializer ends at the indent level it started with
    PROVED FOR THE PARSE OF EVERY LAYOUT OF EVERY WELL-FORMED TREE but the shape of D7, both serializer options:
      C04_roundtrip_wellformed_sources_partial   for every tree tj with Render.wf_resource tj, WfUtf8.wf_utf8_resource tj
-                                  and WfComplete.comments_end_ok tj (the last line of every comment contains a byte
-                                  other than a space) and EVERY layout cs: the tree t that the parser returns for
+                                  and RoundTrip.last_comment_ok tj (finding D7: if the LAST entry is a stand-alone
+                                  comment, its last line is not empty) and EVERY layout cs: the tree t that the parser returns for
                                   render cs tj serializes to a text that parses back, without errors, to a tree with
                                   the same normal form, and serialising that tree gives the same text (round trip and
                                   fixed point).  So C04 holds for the parser output of every source the grammar
@@ -29,9 +29,9 @@
                                   "{" expression "}" -- a select expression in it is written over several lines
                                   inside the parentheses)
      C04_nested_contains_parser_outputs   for every tree tj of RoundTripNest.nest_resource d (C02's fragment with
-                                  nested call arguments, which contains every well-formed tree with
-                                  comments_end_ok: C02_wellformed_in_nested) and EVERY layout cs, the tree the
-                                  parser returns for render cs tj is in snest_resource d
+                                  nested call arguments, which contains every well-formed tree:
+                                  C02_wellformed_in_nested) with last_comment_ok tj and EVERY layout cs, the tree
+                                  the parser returns for render cs tj is in snest_resource d
      C04_multiline_in_nested      sml_resource (below) is contained in snest_resource 0
    The fragment snest_resource d: as ssel_resource d below with RoundTripNest.nest_pattern d in place of
    RoundTripSel.sel_pattern d (call arguments of any nesting), the condition on text elements also inside
@@ -71,8 +71,9 @@
                                   cs of it, the tree the parser returns for render cs tj is in the fragment (and
                                   joins to tj): the fragment is what the parser produces from these sources
      C04_simple_in_multiline      the one-line fragment below is a sub-fragment
-   The fragment sml_resource: the entries are as in simple_resource below (stand-alone comments, messages and
-   terms with or without attached comment, attributes), but the value of a message, term or attribute is a
+   The fragment sml_resource (and ssel_resource d, snest_resource d above): the entries are as in simple_resource
+   below (stand-alone comments, messages and terms with or without attached comment, attributes; in these three
+   fragments a comment may END in an empty or whitespace-only line, the one-line fragment excludes that), but the value of a message, term or attribute is a
    pattern as the parser returns it for a multi-line value: a list of text elements and placeables with a
    simple inline expression such that
      - no text element is empty, and a line feed occurs in a text element only as its last byte
@@ -310,7 +311,7 @@ Theorem C04_select_output :
 Proof. intros d wj t Ht. destruct (parse_serialize_ssel d wj t Ht) as (t2 & Es & _). exact Es. Qed.
 
 Theorem C04_select_contains_parser_outputs :
-  forall d cs tj, sel_resource d tj = true ->
+  forall d cs tj, sel_resource d tj = true -> last_comment_ok tj = true ->
   exists t, parse (render cs tj) = Done (t, []) /\ ssel_resource d t = true /\ map join_entry t = tj.
 Proof. exact parser_outputs_ssel. Qed.
 
@@ -346,25 +347,26 @@ Theorem C04_nested_output :
 Proof. intros d wj t Ht. destruct (parse_serialize_snest d wj t Ht) as (t2 & Es & _). exact Es. Qed.
 
 Theorem C04_nested_contains_parser_outputs :
-  forall d cs tj, nest_resource d tj = true ->
+  forall d cs tj, nest_resource d tj = true -> last_comment_ok tj = true ->
   exists t, parse (render cs tj) = Done (t, []) /\ snest_resource d t = true /\ map join_entry t = tj.
 Proof. exact parser_outputs_snest. Qed.
 
 Theorem C04_multiline_in_nested : forall t, sml_resource t = true -> snest_resource 0 t = true.
 Proof. exact sml_resource_snest. Qed.
 
-(* C04 for the parser output of every layout of every well-formed tree whose comments do not end in an empty or
-   whitespace-only line: round trip (no errors, same normal form) and fixed point *)
+(* C04 for the parser output of every layout of every well-formed tree that has not the shape of finding D7 (if its
+   last entry is a stand-alone comment, the last line of that comment is not empty): round trip (no errors, same
+   normal form) and fixed point *)
 Theorem C04_roundtrip_wellformed_sources_partial :
-  forall cs tj, wf_resource tj = true -> wf_utf8_resource tj = true -> comments_end_ok tj = true ->
+  forall cs tj, wf_resource tj = true -> wf_utf8_resource tj = true -> last_comment_ok tj = true ->
   forall t errs, parse (render cs tj) = Done (t, errs) ->
   forall with_junk s, serialize_with_options with_junk t = Done s ->
   exists t2 errs2, parse s = Done (t2, errs2) /\ norm t2 = norm (drop_junk_unless with_junk t) /\ errs2 = [] /\
                    serialize_with_options with_junk t2 = Done s.
 Proof.
   intros cs tj Hw Hu Hc t errs Hp wj s Hs.
-  destruct (wf_resource_nest tj Hw Hu Hc) as [d Hd].
-  destruct (parser_outputs_snest d cs tj Hd) as (t' & Ep' & Ht' & _). rewrite Ep' in Hp. injection Hp as <- <-.
+  destruct (wf_resource_nest tj Hw Hu) as [d Hd].
+  destruct (parser_outputs_snest d cs tj Hd Hc) as (t' & Ep' & Ht' & _). rewrite Ep' in Hp. injection Hp as <- <-.
   destruct (parse_serialize_snest d wj t' Ht') as (t2 & Es & Ep & Hn & _ & Efix).
   rewrite Es in Hs. injection Hs as <-.
   exists t2, []. rewrite (g_no_junk (snest_pok d) t' wj Ht'). repeat split; assumption.
@@ -402,7 +404,7 @@ Proof. intros wj t Ht. destruct (parse_serialize_sml wj t Ht) as (t2 & Es & _). 
 
 (* the fragment contains the parser's output for every layout of every tree of C02's multi-line fragment *)
 Theorem C04_multiline_contains_parser_outputs :
-  forall cs tj, ml_resource eoks tj = true ->
+  forall cs tj, ml_resource eoks tj = true -> last_comment_ok tj = true ->
   exists t, parse (render cs tj) = Done (t, []) /\ sml_resource t = true /\ map join_entry t = tj.
 Proof. exact parser_outputs_sml. Qed.
 
